@@ -1,17 +1,21 @@
 #!/bin/bash
 # usage: tools/mutcheck.sh <patch.diff> <PROP> [<PROP>...]
-# Applies the patch to a scratch worktree of /repo (never to /repo itself), runs the given
-# checks against it via VERIF_REPO, prints the verdict lines, removes the worktree and
-# regenerates the tables from /repo again.
+# Applies the patch to a scratch worktree of /repo (never to /repo itself) and runs the given
+# checks against it (VERIF_REPO) from a scratch COPY of /verif, so that the regenerated tables
+# and the Lean build of the mutant never touch /verif and several runs can go on in parallel.
+# Prints the verdict lines; removes worktree and copy afterwards.
 set -u
 PATCH=$(readlink -f "$1"); shift
 WT=/tmp/mut_$$
+VC=/tmp/mutverif_$$
 git -C /repo worktree add -q --detach "$WT" HEAD || exit 2
 if ! git -C "$WT" apply "$PATCH"; then echo "PATCH DOES NOT APPLY"; git -C /repo worktree remove --force "$WT"; exit 2; fi
-cd /verif
+rsync -a --exclude .git --exclude replays --exclude findings --exclude seeded /verif/ "$VC"/
+cd "$VC"
 for P in "$@"; do
   echo "== $P on $(basename $(dirname $PATCH))/$(basename $PATCH)"
   VERIF_REPO="$WT" ./check "$P" --tier "${MUT_TIER:-quick}" 2>&1 | grep -E "^(OK|VIOLATION|FAILING-INPUT|BROKEN|KNOWN-FINDING|HARNESS-FAULT)" | cut -c1-300
 done
+cd /
 git -C /repo worktree remove --force "$WT"
-/venv/bin/python /verif/tools/extract.py >/dev/null 2>&1
+rm -rf "$VC"
